@@ -38,8 +38,10 @@ func (w *work) processQueue() {
 	for len(w.queue) > idx {
 		f = w.queue[idx]
 		w.s.mu.Unlock()
+		verifPoint("worker.before", w.wid)
 		idx++
 		f()
+		verifPoint("worker.after", w.wid)
 		w.s.mu.Lock()
 	}
 	// Work complete. Delete if it has a work ID.
